@@ -13,6 +13,8 @@ import (
 )
 
 const (
+	// maxMediaPackets03 is the number of packets the three FlexFEC-03 mask words can describe.
+	maxMediaPackets03 = 109
 	// BaseFec03HeaderSize represents the minium FEC payload's header size including the
 	// required first mask.
 	BaseFec03HeaderSize = 20
@@ -58,7 +60,8 @@ func NewFlexEncoder03(payloadType uint8, ssrc uint32) *FlexEncoder03 {
 // This method returns nil in case of missing RTP packets in the mediaPackets array or packets passed out of order.
 func (flex *FlexEncoder03) EncodeFec(mediaPackets []rtp.Packet, numFecPackets uint32) []rtp.Packet {
 	// Check if mediaPackets is empty
-	if len(mediaPackets) == 0 {
+	// the FlexFEC-03 masks (15 + 31 + 63 bits) can name at most 109 packets
+	if len(mediaPackets) == 0 || len(mediaPackets) > maxMediaPackets03 {
 		return nil
 	}
 
